@@ -91,6 +91,19 @@ def build(sizes, rng, ext, trailers, upper, zeros, bws, kind, caps, stop):
     ops = [req, "proceed", "write_head #4096", "proceed", "stream %s" % hx(stream), "arrive %s" % num(len(interim) + len(head))] + \
           (["try_response"] if interim else []) + ["try_response", "proceed", "q_body_mode"]
     HEAD_LEN = len(interim) + len(head)
+    if variant in ("plain", "interim") and rng.random() < 0.5:
+        # any route into RecvResponse (lib.recv_context): other methods, a body sent, the Expect handshake (with a late 100 in front of
+        # the response), a second hop, HTTP/1.0 or Connection: close on the request, the head written in segments
+        ctx, prefix, info = recv_context(rng)
+        _stats["variant"]["ctx:" + info["kind"]] = _stats["variant"].get("ctx:" + info["kind"], 0) + 1
+        stream = prefix + interim + head + coding + NEXT
+        HEAD_LEN = len(prefix) + len(interim) + len(head)
+        ops = ctx + ["stream %s" % hx(stream), "arrive %s" % num(HEAD_LEN)] + (["try_response"] if prefix else []) + \
+              (["try_response"] if interim else []) + ["try_response", "proceed", "q_body_mode"]
+        if info["http10_request"]:
+            variant = "req-1.0"
+        elif info["request_close"]:
+            variant = "req-close"
     ops += schedule_ops(len(coding), rng, kind, caps, stop)
     # drain: enough large reads to finish whatever the schedule left (boundary stops need one read per chunk)
     for _ in range(len(sizes) + 3):
